@@ -1565,7 +1565,9 @@ class ReusableRandomGreedyOptimizer(ReusableOptimizer):
     def _deconstruct_tree(self, opt, tree):
         return {
             "path": tree.get_path(),
-            "score": opt.best_flops,
+            # n.b. in the same units as ``update_from_tree`` stores, and
+            # ``overwrite='improved'`` compares, i.e. the score of the tree
+            "score": tree.get_score(),
             # store this for cache compatibility
             "sliced_inds": (),
         }
